@@ -24,6 +24,7 @@ fn sized_jobs(prop: &str, max_ops: usize, cases: u64, flavours: &[&'static str])
         v.push(jobb(sized_engine("tokz", prop, max_ops), cases / 4, fl));
         v.push(jobb(sized_engine("plain8", prop, max_ops), cases / 4, fl));
         v.push(jobb(sized_engine("big", prop, max_ops), cases / 8, fl));
+        v.push(jobb(sized_engine("huge", prop, max_ops.min(32)), cases / 24, fl));
     }
     v
 }
